@@ -116,10 +116,13 @@ Invoke(id, t, f) ==
   /\ call' = [call EXCEPT ![id].pc = "inv", ![id].tmo = t, ![id].ff = f]
   /\ UNCHANGED <<writeQ, inFlight, cli, c2s, s2c, link, proxy, sconn, srv, orph, pool, mem, srvSt>>
 
-(* environment: the caller cancels the context                             *)
+(* environment: the caller cancels the context (logged before cancel() is  *)
+(* called: if the call has a deadline, the deadline may still win)         *)
 CtxCancel(id) ==
   /\ call[id].pc \in {"inv", "wait"}
-  /\ call' = [call EXCEPT ![id].ctx = IF @ = "live" THEN "cancel" ELSE @]
+  /\ \/ call' = [call EXCEPT ![id].ctx = IF @ = "live" THEN "cancel" ELSE @]
+     \/ /\ call[id].tmo /\ call[id].ctx = "live"
+        /\ call' = [call EXCEPT ![id].ctx = "deadline", ![id].exp = TRUE]
   /\ UNCHANGED <<writeQ, inFlight, cli, c2s, s2c, link, proxy, sconn, srv, orph, pool, mem, srvSt>>
 
 (* time passes: the deadline of a call with a timeout is reached ...       *)
